@@ -1,0 +1,22 @@
+// SPDX-License-Identifier: (Apache-2.0 OR MIT)
+//! Verification hooks. Only compiled with `--cfg rbpf_verif`; never part of a normal build.
+//! They let an external harness bound the number of interpreted instructions (arbitrary accepted
+//! programs may loop) and learn where the interpreter placed its private stack (so that
+//! address-dependent behaviour can be compared exactly against a model).
+
+use core::sync::atomic::{AtomicU64, Ordering};
+
+/// Maximum number of instructions one `execute_program` call may interpret; 0 = unlimited.
+pub static INSN_BUDGET: AtomicU64 = AtomicU64::new(0);
+/// Address of the 512-byte stack of the most recent interpreter execution.
+pub static LAST_STACK_BASE: AtomicU64 = AtomicU64::new(0);
+
+/// Set the instruction budget (0 disables it).
+pub fn set_insn_budget(n: u64) {
+    INSN_BUDGET.store(n, Ordering::Relaxed);
+}
+
+/// Stack base address recorded by the most recent interpreter execution.
+pub fn last_stack_base() -> u64 {
+    LAST_STACK_BASE.load(Ordering::Relaxed)
+}
